@@ -183,7 +183,9 @@ contract(Contract(
            },
     loops={0: Loop(per_iteration=True, inv={"explicit": Clause(explicit_inv, props=["C16"])})},
     ensures={
-        **{"options." + f: Clause(option_field(f), props=["C15", "C16"] if f in CONFIGURABLE else ["C15"]) for f in FLAGS},
+        # (C14: a file is rewritten in place / without backup only when -i / --nobackup (or --auto) says so)
+        **{"options." + f: Clause(option_field(f), props=(["C15", "C16"] if f in CONFIGURABLE else ["C15"])
+                                  + (["C14"] if f in ("inplace", "nobackup", "output") else [])) for f in FLAGS},
         "options.files": Clause(files_field, props=["C15"]),
         **{"explicit." + f: Clause(explicit_iff_given(f), props=["C16"]) for f in CONFIGURABLE},
         "explicit.table": Clause(tracked_covers_configurable, props=["C16"]),
